@@ -61,3 +61,23 @@ claim("C13",
       "kinetic-energy restoration.",
       "Does not decide the realised temperature or momenta magnitudes. Assumes mass, mass_inverse and force are zero on padding rows.",
       "DESIGN.md section 4, C13")
+
+claim("C17",
+      "symbolic straight-line interpretation of the RK4 sub-step and of the hop quadratic (sympy), SSA order check of the hop-probability chain, "
+      "CFG purity of frustrated exits, index-discipline and row-0 who-may-read rules",
+      "Decides the RK4 stage/weight structure of the electronic propagation, the clamp->sum->normalise->single-draw shape of the "
+      "fewest-switches probabilities, that the velocity adjustment as coded conserves energy identically and takes the smaller "
+      "root along the mass-weighted coupling vector, that no path reporting a frustrated hop wrote velocities or active state, "
+      "and that per-trajectory data are never indexed by another trajectory's index or broadcast from row 0.",
+      "Does not decide norm conservation numerically, nor that the trivial-crossing relabel is a permutation. One recorded known "
+      "finding (batch-global RK4 sub-step count). Trusted: sympy; rhs_amp treated as an opaque right-hand side.",
+      "DESIGN.md section 4, C17")
+
+claim("C20",
+      "CFG ordering/dominance in onestep, sympy normal form of the update, guard extraction for the stop test, flag-sensitive tagged reachability for the report",
+      "Decides that each iteration evaluates, then reads the fresh force, then applies x += alpha*force once under no_grad; that the "
+      "loop is capped by range(max_evl) and breaks exactly on max|force| <= tol; that the returned values are the last evaluation's; "
+      "that 'not converged' is reachable only through loop exhaustion and 'converged' only through break on all flag-feasible "
+      "paths; that the only coordinate write is zero on padding rows and free of batch reductions.",
+      "Does not decide monotone descent. Assumes force = -dE/dx and zero on padding (C01). Report statements are found by their message literals.",
+      "DESIGN.md section 4, C20")
